@@ -355,16 +355,19 @@ package risc
 
 //@ func (InstructionType).IsConditionalBranch
 //@   mode bv
+//@   pure
 //@   ensures result == (ins == Beq || ins == Beqz || ins == Bne || ins == Bnez || ins == Blt || ins == Bltu || ins == Ble || ins == Bge || ins == Bgeu)
 //@   assigns nothing
 
 //@ func (InstructionType).IsUnconditionalBranch
 //@   mode bv
+//@   pure
 //@   ensures result == (ins == J || ins == Jal || ins == Jalr)
 //@   assigns nothing
 
 //@ func (InstructionType).IsBranch
 //@   mode bv
+//@   pure
 //@   ensures result == (ins == J || ins == Jal || ins == Jalr || ins == Beq || ins == Beqz || ins == Bne || ins == Bnez || ins == Blt || ins == Bltu || ins == Ble || ins == Bge || ins == Bgeu)
 //@   assigns nothing
 
